@@ -36,16 +36,34 @@ Rules (constructs of the language only, never a particular function):
   * `assert!` / `debug_assert!` are dropped exactly as in rs2v.py (outside the documented domain the function aborts);
   * a loop condition with side effects (a call, an index) is a translation error (the bound is evaluated once here);
     effects in the right operand of `&&` / `||` likewise.
+Mirrored from the third extension of rs2v.py (square root, signed division fronts, special-modulus multiplication, almost-Montgomery
+multiplication; again constructs only):
+  * a block expression `{ s1; ..; e }` is hoisted like an `if` expression: `let '(h_K, tr) := (s1; ..; (e, tr)) in`;
+  * `if c { e } else { panic!(..) }` as an expression (either branch may diverge): the condition is an `ev_br` like that of any other
+    `if`; the diverging branch is `panic_ (D, tr)` (e.g. NonZero::new_unwrap: the theorems state the type fact under which the
+    condition is the same in every run);
+  * `c = f(.., &mut x / z, ..);` and `let mut c = if q { ..; f(z, ..) } else { ..; e };` (a `&mut [Limb]` parameter passed on): the
+    callee's events are spliced in, `let '(v_c, v_z, t_K) := (l_f ..) in let tr := tr ++ t_K in`;
+  * the two-counter loop `while i < E && j < F { ..; i += 1; j += 1; }`: one `ev_trip` with the count min(E - i, F - j) (both
+    conjuncts and the short circuit are functions of the count and the iteration number);
+  * a translated associated constant in the BOUND of a loop (`while i < Self::LOG2_BITS + 2`) is a compile-time constant: its
+    events are spliced ONCE in front of the loop; any other effect in a loop condition is still a translation error;
+  * method calls on `NonZero<T>` / `Odd<T>` values dispatch as in rs2v.py (the wrapper's own impl block, else auto-deref); the callee
+    is spliced like any other call;
+  * an EXTERN target (`{"extern": true}`: `Uint::split_mul`) is a Section Variable `lx_<name>` of the generated file that returns
+    (value, trace): its trace is spliced in like that of any callee; the instrumented definitions that call it take it as their
+    first argument and the theorems state what they ASSUME of its trace as an explicit hypothesis.
 Anything rs2v.py cannot translate is an ill-typed stub here too (`Definition l_f : unit := tt.`), so the proofs about it fail.
 """
 import os, sys, json, re
 sys.path.insert(0, os.path.dirname(os.path.abspath(__file__)))
 import rs2v
 from rs2v import (TErr, lex, P, translate, find_const, parse_type, coq_type, dummy, cgname, is_generic, SELFTY, CONST_SIGS,
-                  MUTS, MUTPOS, MUTRET, FREE_GENERIC, CG, Emitter, fv)
+                  MUTS, MUTPOS, MUTRET, FREE_GENERIC, CG, Emitter, fv, mutrefs, EXT_USERS, CUR_GROUP)
 
 def lname(g):
-    """g_<name> -> l_<name>"""
+    """g_<name> -> l_<name>; x_<name> (an extern target: a Section Variable of the generated file) -> lx_<name>"""
+    if g.startswith('x_'): return 'lx_' + g[2:]
     if not g.startswith('g_'): raise TErr('target name %s does not start with g_' % g)
     return 'l_' + g[2:]
 
@@ -61,6 +79,7 @@ class LeakEmitter(Emitter):
         Emitter.__init__(self, *a, **kw)
         self.pre = []          # hoisted bindings of the statement being translated (calls, `if` expressions, events)
         self.hid = 0
+        self.const_pre = {}    # hoisted binding of a translated associated constant (text) -> its name h_K
     # ---- events
     def event(self, ev):
         self.pre.append('let tr := tr_ tr %s in\n  ' % ev)
@@ -104,7 +123,9 @@ class LeakEmitter(Emitter):
             owner = self.owner(key[0])
             if owner + '::' + key[1] in CONST_SIGS:
                 c, t = Emitter.emit(self, e, env, exp)    # a translated associated constant: spliced like a call without arguments
-                return self.hoist_call(c, t)
+                r = self.hoist_call(c, t)
+                self.const_pre[self.pre[-1]] = r[0]
+                return r
             return Emitter.emit(self, e, env, exp)
         if k == 'mcall' and e[2] == 'div_ceil' and len(e[3]) == 1:
             c, t = self.emit(e[1], env, None)
@@ -114,12 +135,34 @@ class LeakEmitter(Emitter):
                 self.event('(%s %s %s)' % ('ev_divc' if is_const_expr(e[3][0]) else 'ev_div', c, b))
                 return r
             return Emitter.emit(self, ('mcall', ('raw', c, t), e[2], e[3]), env, exp)
+        if k == 'block':
+            # block expression `{ s1; ..; e }`: hoisted like an `if` expression; its `let`s are local, the trace runs through it
+            outer = [v for v in self.assigned(e[1], []) if v in env]
+            if outer: raise TErr('block expression that assigns the outer variable %s' % outer[0])
+            saved = self.pre; self.pre = []
+            c = self.stmts(e[1], dict(env), exp, None); t = self.ret_t
+            if c is None or t is None: raise TErr('block expression without a value')
+            self.pre = saved
+            h = self.fresh()
+            self.pre.append("let '(h_%d, tr) := (%s) in\n  " % (h, c))
+            return 'h_%d' % h, t
         if k == 'if':
             cc, ct = self.emit(e[1], env, 'bool')
             if ct != 'bool': raise TErr('if condition of type %s' % (ct,))
             if not e[3]: raise TErr('if expression without else')
             self.event('(ev_br %s)' % cc)
             saved = self.pre; self.pre = []
+            if e[3] == [('panic',)] or e[2] == [('panic',)]:
+                # `if c { e } else { panic!(..) }` (or the branches swapped): the condition is an event like that of any other `if`;
+                # the diverging branch is panic_ (D, tr)
+                other = e[2] if e[3] == [('panic',)] else e[3]
+                a = self.stmts(other, dict(env), exp, None); ta = self.ret_t
+                if a is None or ta is None: raise TErr('if expression whose branch has no value')
+                pd = '(panic_ (%s, tr))' % dummy(ta)
+                self.pre = saved
+                h = self.fresh()
+                self.pre.append("let '(h_%d, tr) := (if %s then %s else %s) in\n  " % ((h, cc, '(%s)' % a, pd) if e[3] == [('panic',)] else (h, cc, pd, '(%s)' % a)))
+                return 'h_%d' % h, ta
             a = self.stmts(e[2], dict(env), exp, None); ta = self.ret_t
             b = self.stmts(e[3], dict(env), exp if exp is not None else ta, None); tb = self.ret_t
             if a is None or b is None: raise TErr('if expression whose branch has no value')
@@ -136,13 +179,26 @@ class LeakEmitter(Emitter):
         if mut_ok:
             return c, rty                                  # the statement binds (value, buffers, trace) itself
         return self.hoist_call(c, rty)
+    def bound_effects(self, n, r):
+        """the bindings hoisted while the bound of a loop was translated (self.pre[n:]); r = (counters, iteration count) or None.
+        Uses of translated associated constants (compile-time constants: `Self::LOG2_BITS`) are kept -- spliced ONCE in front of
+        the loop, the bound is evaluated once here; any other effect (a call, an index) is a translation error"""
+        new = self.pre[n:]; del self.pre[n:]
+        if r is None or not new: return r
+        for x in new:
+            if x not in self.const_pre: raise TErr('loop condition with side effects')
+            if re.search(r'\b%s\b' % self.const_pre[x], r[1]): self.pre.append(x)      # (a bound translated twice: the copy in use)
+        return r
+    def counted_once(self, c, b, env, counters):
+        """the loop shape test of the statement translator, evaluated ONCE (the bound may hoist bindings)"""
+        self.last_counted = self.counted(c, b, env) if counters == 1 else self.counted2(c, b, env)
+        return self.last_counted
     def counted(self, c, b, env):
         n = len(self.pre)
-        r = Emitter.counted(self, c, b, env)
-        if len(self.pre) != n:
-            del self.pre[n:]
-            if r is not None: raise TErr('loop condition with side effects')
-        return r
+        return self.bound_effects(n, Emitter.counted(self, c, b, env))
+    def counted2(self, c, b, env):
+        n = len(self.pre)
+        return self.bound_effects(n, Emitter.counted2(self, c, b, env))
     # ---- assignments: right-hand side, then the index, then the store
     def set_var(self, name, rhs, env):
         s = Emitter.set_var(self, name, rhs, env)
@@ -175,6 +231,28 @@ class LeakEmitter(Emitter):
                     env[name] = None; self.uninit[name] = uid
                     out += 'let v_%s := \x00U%d\x00 in\n  ' % (name, uid)
                 self.const0[name] = False
+            elif s[0] == 'let' and s[3] is not None and s[3][0] == 'if' and s[1][0] == 'id' and s[3][3] and \
+                    (mutrefs(s[3], []) or self.borrowed(s[3], [])):
+                # `let mut c = if q { ..; f(z, ..) } else { ..; e };` where a branch calls a function with `&mut` parameters:
+                # read as `let mut c; if q { ..; c = f(z, ..); } else { ..; c = e; }` (the same program in Rust), as in rs2v.py
+                def to_assign(blk):
+                    if not blk or blk[-1][0] != 'ret' or blk[-1][1][0] == 'if': raise TErr('branch of a `let .. = if` without a plain tail expression')
+                    return blk[:-1] + [('assign', s[1][1], None, blk[-1][1])]
+                ss = ss[:i] + [('let', s[1], s[2], None), ('if', s[3][1], to_assign(s[3][2]), to_assign(s[3][3]))] + ss[i + 1:]
+                continue
+            elif s[0] == 'assign' and s[2] is None and self.is_mut_call(s[3]):
+                # `c = f(.., &mut x, ..);` : c is assigned the value, x is rebound to its final contents, the callee's events spliced in
+                name = s[1]
+                if name not in env: raise TErr('assignment to unknown %s' % name)
+                c, rt, names = self.mut_call(s[3], env)
+                if rt is None: raise TErr('assignment of a unit call')
+                if name in names: raise TErr('a borrowed variable assigned by the same call')
+                env[name] = self.unify(env[name], rt, 'assignment')
+                if name in self.uninit: self.uninit_t[self.uninit.pop(name)] = env[name]
+                self.const0[name] = False
+                for n in names: self.const0[n] = False
+                k = self.fresh()
+                out += self.flush() + "let '(v_%s, %s, t_%d) := %s in\n  let tr := tr ++ t_%d in\n  " % (name, self.tup(names), k, c, k)
             elif s[0] in ('let', 'expr') and self.is_mut_call(s[3] if s[0] == 'let' else s[1]):
                 c, rt, names = self.mut_call(s[3] if s[0] == 'let' else s[1], env)
                 for n in names: self.const0[n] = False
@@ -274,10 +352,26 @@ class LeakEmitter(Emitter):
                         out += 'let v_%s := %d in\n  ' % (iv, kk)
                         out += self.stmts(b[:-1], env, None, '')
                     out += 'let v_%s := %d in\n  ' % (iv, n)
-                elif self.counted(c, b, env):
-                    iv, count = self.counted(c, b, env)
+                elif self.counted_once(c, b, env, 1):
+                    iv, count = self.last_counted
+                    out += self.flush()          # associated constants in the bound: spliced once, in front of the loop
                     env[iv] = env.get(iv) or 'u64'
                     vs = [iv] + [v for v in self.assigned(b[:-1], []) if v in env and v != iv]
+                    tup = self.ttup(vs)
+                    env2 = dict(env)
+                    body = self.stmts(b, env2, None, '(%s)' % tup)
+                    for v in vs:
+                        env[v] = env2[v]; self.const0[v] = False
+                    for v in env:
+                        if env[v] is None: env[v] = env2.get(v)
+                    out += 'let tr := tr_ tr (ev_trip (Z.of_nat %s)) in\n  ' % count
+                    out += "let '(%s) := Nat.iter %s (fun st => let '(%s) := st in\n  %s) (%s) in\n  " % (tup, count, tup, body, tup)
+                elif self.counted_once(c, b, env, 2):
+                    # `while i < E && j < F { ..; i += 1; j += 1; }` : min(max(0, E - i), max(0, F - j)) iterations; the per-iteration
+                    # test (both conjuncts, the short circuit included) is a function of the trip count and the iteration number
+                    ivs, count = self.last_counted
+                    out += self.flush()
+                    vs = ivs + [v for v in self.assigned(b[:-2], []) if v in env and v not in ivs]
                     tup = self.ttup(vs)
                     env2 = dict(env)
                     body = self.stmts(b, env2, None, '(%s)' % tup)
@@ -327,9 +421,31 @@ class LeakEmitter(Emitter):
 def gen_group(repo, group, sigs):
     """rs2v.gen_group for the instrumented definitions: the same two passes (signatures, then bodies), the names l_<name>"""
     bodies = []; report = []; parsed = []
+    externs = []
+    CUR_GROUP[0] = group['file']
     for f in group['fns']:
         src = open(os.path.join(repo, f['src'])).read()
         ln = lname(f['coq'])
+        if f.get('extern'):
+            # an EXTERN function (outside the subset, only its declared signature is read): a Section Variable of the generated
+            # file that returns (value, trace) -- every instrumented definition of the group that (transitively) calls it takes
+            # it as its first argument; what the theorems ASSUME of its trace is stated in them as a hypothesis
+            key = (f['impl'] + '::' + f['name']) if f.get('impl') else f['name']
+            try:
+                CG[0] = None
+                ps, rty, body, selfty, muts, cg = translate(src, f['name'], ln, f.get('impl'), sigs, f.get('trait'), extern=True)
+                if muts or cg: raise TErr('extern function with `&mut` parameters / its own const generic')
+                sigs[key] = (ln, [t for _, t in ps], rty)
+                EXT_USERS[key] = group['file']
+                tys = (['nat'] if is_generic(f.get('impl')) else []) + [coq_type(t) for _, t in ps] + ['(%s * list Z)' % coq_type(rty)]
+                externs.append('(* %s :: %s  EXTERN: not translated, a parameter (value, trace) of the definitions below that call it *)\nVariable %s : %s.\n' % (f['src'], key, ln, ' -> '.join(tys)))
+                report.append((key, 'ok (extern: signature only)'))
+            except TErr as e:
+                report.append((key, 'FAILED: ' + str(e)))
+                externs.append('(* %s :: %s  EXTERN signature NOT TRANSLATED: %s *)\nVariable %s : unit.\n' % (f['src'], key, str(e).replace('*)', '* )'), ln))
+            finally:
+                CG[0] = None
+            continue
         if 'const' in f:
             key = f['impl'] + '::' + f['const']
             try:
@@ -367,6 +483,7 @@ def gen_group(repo, group, sigs):
             try:
                 em = LeakEmitter(sigs, selfty, f.get('impl'), rty, cg, MUTS.get(key) if key in MUTRET else None)
                 env = {n: t for n, t in ps if n != 'self'}
+                em.mutparams = tuple(MUTS.get(key, ()))
                 ss = P(lex(body), cgname()).block()
                 if key in MUTRET:
                     code = em.stmts(ss, env, MUTRET[key], '', top=True)
@@ -377,6 +494,7 @@ def gen_group(repo, group, sigs):
                 for uid in range(em.uid):
                     if uid not in em.uninit_t: raise TErr('`let` without a value: the variable is never assigned a typed value')
                     code = code.replace('\x00U%d\x00' % uid, dummy(em.uninit_t[uid]))
+                if em.uses_extern: EXT_USERS[key] = group['file']
                 args = ' '.join('(v_%s : %s)' % (n, coq_type(t)) for n, t in ps)
                 if is_generic(f.get('impl')):
                     args = '(LIMBS : nat) ' + args
@@ -399,6 +517,8 @@ def gen_group(repo, group, sigs):
     CG[0] = None
     head = '(** GENERATED by tools/rs2v_leak.py from %s -- do not edit; regenerated on every ./check run. *)\n' % ', '.join(sorted(set(f['src'] for f in group['fns'])))
     head += 'From CB Require Import Model.SrcPrelude Model.LeakPrelude%s.\nOpen Scope Z_scope.\n\n' % ''.join(' Src.' + leakfile(r) for r in group.get('requires', []))
+    if externs:
+        return head + 'Section Extern.\n' + '\n'.join(externs) + '\n' + '\n'.join(bodies) + '\nEnd Extern.\n', report
     return head + '\n'.join(bodies), report
 
 def leakfile(genname):
@@ -407,16 +527,17 @@ def leakfile(genname):
     return 'Leak' + genname[3:]
 
 # the groups of tools/rs2v_targets.json whose kernels have hand-written noninterference proofs (coq/Src/Leak<G>P.v)
-LEAK_FILES = ['Gen%s.v' % g for g in ('Prim', 'Div', 'Uint', 'Mod', 'Shift', 'Mul', 'Int', 'DivLimb', 'Monty', 'Hex', 'Bits', 'DivCt')]
+LEAK_FILES = ['Gen%s.v' % g for g in ('Prim', 'Div', 'Uint', 'Mod', 'Shift', 'Mul', 'Int', 'DivLimb', 'Monty', 'Hex', 'Bits', 'DivCt', 'Sqrt', 'Amm', 'MulMod', 'IntDiv')]
 
 def main():
     repo = sys.argv[1] if len(sys.argv) > 1 else '/repo'
     outdir = sys.argv[2] if len(sys.argv) > 2 else os.path.join(os.path.dirname(os.path.dirname(os.path.abspath(__file__))), 'coq', 'Src')
     os.makedirs(outdir, exist_ok=True)
+    rs2v.REPO[0] = repo          # (the wrapper-method scan of rs2v.wrapper_methods reads the same tree)
     allrep = {}; sigs = {}
     for g in rs2v.GROUPS:
         if g['file'] not in LEAK_FILES:
-            continue          # groups added to rs2v after this tool was written: not instrumented yet (DESIGN R11)
+            continue          # a group added to rs2v after this list was last extended: not instrumented yet (DESIGN R11)
         try:
             text, rep = gen_group(repo, g, sigs)
         except Exception as e:          # a construct of a later rs2v that this emitter does not mirror: stub the group
@@ -427,7 +548,7 @@ def main():
             open(p, 'w').write(text)
         allrep[leakfile(g['file'])] = rep
     json.dump(allrep, open(os.path.join(outdir, 'rs2v_leak_report.json'), 'w'), indent=1)
-    bad = [(g, k, v) for g, r in allrep.items() for k, v in r if v != 'ok']
+    bad = [(g, k, v) for g, r in allrep.items() for k, v in r if not v.startswith('ok')]
     for g, k, v in bad:
         print('rs2v_leak: %s %s %s' % (g, k, v))
     print('rs2v_leak: %d functions instrumented, %d failed' % (sum(len(r) for r in allrep.values()) - len(bad), len(bad)))
